@@ -297,7 +297,10 @@ def shards(tier):
         for a1 in A_KINDS:
             for b1 in B_KINDS:
                 for b2 in B_KINDS:
-                    out.append(('two', {'ka': 3 if T else 2, 'kb': 2, 'b_persistent': bp, 'afirst': (a1,), 'bfirst': (b1, b2)}))
+                    out.append(('two', {'ka': 2, 'kb': 2, 'b_persistent': bp, 'afirst': (a1,), 'bfirst': (b1, b2)}))
+                    if T and b1 in ('loss', 'reconnect') and b2 in ('ack', 'reconnect'):
+                        for a2 in A_KINDS:
+                            out.append(('two', {'ka': 3, 'kb': 2, 'b_persistent': bp, 'afirst': (a1, a2), 'bfirst': (b1, b2)}))
         # A keeps the library's default window and B, built first, configures a larger one; A itself is lost and rebuilt
         for a1 in ('publish', 'reconnect', 'idle-loss'):
             for b1 in ('publish', 'reconnect', 'loss'):
@@ -314,7 +317,7 @@ META = {
             'identifiers either of the own j-th outstanding request or symbolic and foreign to the receiving protocol - possibly an identifier of the other protocol, '
             'inbound identifiers, time), every interleaving position of B among A; the same A script is then run alone on a fresh factory and A\'s observation logs '
             '(identifiers renamed to request ordinals) are compared',
-    'bounds': {'quick': 'A: publish, subscribe + 2 free steps; B: publish + 2 free steps; variant: B built first with window 4, A with the default window on a persistent session and itself lost / rebuilt (also lost before connect()); keepalive off, or 5 s on A and 7 s on B; B includes loss and clean/persistent reconnect; window 2 on both', 'thorough': '3 free steps for A, 2 for B'},
+    'bounds': {'quick': 'A: publish, subscribe + 2 free steps; B: publish + 2 free steps; variant: B built first with window 4, A with the default window on a persistent session and itself lost / rebuilt (also lost before connect()); keepalive off, or 5 s on A and 7 s on B; B includes loss and clean/persistent reconnect; window 2 on both', 'thorough': 'as quick, plus 3 free steps for A against B histories that contain a loss or a reconnect'},
     'stubs': ['fake transports', 'one twisted task.Clock', 'jitter: the constant 1/2 (so that timers of A are due at the same instants in both runs)'],
     'outside': ['more than two addresses', 'jitter values other than a constant', 'histories longer than kA+kB steps'],
     'assumptions': ['acknowledgement types fit the exchange they address'],
